@@ -393,9 +393,34 @@ def replay_gantt(desc):
     return 0
 
 
+def _generated_layouts():
+    """thorough tier: every layout of two tasks (scheduled or not; positive, zero or possibly-zero length) over four
+    resource patterns, with and without a buffer"""
+    import itertools
+    out = {}
+    pats = {"none": {}, "one": {"R1": ["A"]}, "shared": {"R1": ["A", "B"]}, "split_idle": {"Idle": [], "R1": ["A"], "R2": ["B"]}}
+    for (sa, ka), (sb, kb) in itertools.product(itertools.product((True, False), ("pos", "zero", "any")), repeat=2):
+        for pn, pat in pats.items():
+            res = {r: [t for t in ts if (t == "A" and sa) or (t == "B" and sb)] for r, ts in pat.items()}
+            for buf in (False, True):
+                if buf and not (pn == "shared" and ka == "pos"):
+                    continue
+                nm = f"gen_{'s' if sa else 'u'}{ka}_{'s' if sb else 'u'}{kb}_{pn}" + ("_buf" if buf else "")
+                out[nm] = dict(tasks={"A": (sa, ka), "B": (sb, kb)}, resources=res, **({"buffers": {"Buf": 2}} if buf else {}))
+    return out
+
+
+GENERATED = _generated_layouts()
+LAYOUTS.update(GENERATED)
+
+
 def shapes(tier):
     out = []
-    for ln in LAYOUTS:
+    if tier == "thorough":
+        for ln in GENERATED:
+            for mode in ("Resource", "Task"):
+                out.append(gantt_shape(ln, mode))
+    for ln in [l for l in LAYOUTS if l not in GENERATED]:
         for mode in ("Resource", "Task"):
             out.append(gantt_shape(ln, mode))
             out.append(concrete_shape(ln, mode, False))
